@@ -65,6 +65,8 @@ def timing_xml(sid, kind, started=None, ended=None):
         parts.append(f'<TextTime>{d}</TextTime><MediaTime>{d * 256}</MediaTime>')
     elif kind == 'dur+text':
         parts.append(f'<StoryDuration>{d}</StoryDuration><TextTime>{d * 256}</TextTime>')
+    elif kind == 'all3':            # all three present: StoryDuration still decides
+        parts.append(f'<TextTime>{d * 256}</TextTime><MediaTime>{d * 65536}</MediaTime><StoryDuration>{d}</StoryDuration>')
     elif kind == 'zero':            # a known duration of zero seconds (boundary value: falsy but not missing)
         parts.append('<StoryDuration>0</StoryDuration>')
     elif kind == 'zero-text':
@@ -133,6 +135,10 @@ P_KINDS = {
     'angle-round': '&lt;opens angle, closes round)',
     'round-multiline': '(a note\n over two lines)',
     'angle-multiline': '&lt;cue\n two&gt;',
+    # Unicode white space (White_Space=yes: NO-BREAK SPACE, IDEOGRAPHIC SPACE) is white space: a paragraph made of it is
+    # whitespace-only, and "stripped" removes it from the edges
+    'nbsp-only': '\u00a0\u3000',
+    'nbsp-edged': '\u00a0Tonight at ten\u3000',
 }
 
 
